@@ -129,6 +129,14 @@ def alts_match(evs, end, alts):
             for (jt, jk), v in zip(e['args'], vals):
                 if v is None:
                     continue        # the reference leaves this value open on this alternative
+                if isinstance(v, tuple) and v[0] == 'f64':
+                    # floating-point reference value; the JavaScript side may hold the number as an exact integer
+                    if jk not in ('f64', 'int'):
+                        ok = False
+                        break
+                    a_ = f64_of(jt, jk)
+                    cs.append('(or (and (fp.isNaN %s) (fp.isNaN %s)) (= %s %s))' % (a_, v[1], a_, v[1]))
+                    continue
                 if jk in ('int', 'bool'):
                     cs.append('(= %s %s)' % (jt, v))
                 elif jk == 'f64':
@@ -653,6 +661,12 @@ def replay_program(case, model):
                           'func NondetInt64R(id int, lo, hi int64) int64 {\n\tswitch id {\n%s\n\t}\n\treturn lo\n}' % '\n'.join(r64_lines['Int64R']))
     decls = decls.replace('func NondetUint64R(id int, lo, hi uint64) uint64 { return lo }',
                           'func NondetUint64R(id int, lo, hi uint64) uint64 {\n\tswitch id {\n%s\n\t}\n\treturn lo\n}' % '\n'.join(r64_lines['Uint64R']))
+    # floating-point outputs are replayed as bit patterns: the documented difference in how println renders floats must not
+    # show up as a difference between the two toolchains
+    decls = decls.replace('func VerifOutF64(tag string, v float64) { println(tag, v) }',
+                          'func VerifOutF64(tag string, v float64) {\n\tif v != v {\n\t\tprintln(tag, "NaN")\n\t\treturn\n\t}\n\tb := math.Float64bits(v)\n\tprintln(tag, uint32(b>>32), uint32(b))\n}')
+    decls = decls.replace('func VerifOutF32(tag string, v float32) { println(tag, v) }',
+                          'func VerifOutF32(tag string, v float32) {\n\tif v != v {\n\t\tprintln(tag, "NaN")\n\t\treturn\n\t}\n\tprintln(tag, math.Float32bits(v))\n}')
     src.append(decls)
     cdecl = ''.join(case.decl) if isinstance(case.decl, (list, tuple)) else case.decl
     imps, cdecl = _hoist_imports(cdecl)
